@@ -186,6 +186,31 @@ def new_solvables(ctx, crate, crs, tag):
            "only decisions with value == true are candidates for encoding")
     ctx.ob("new-solvables" + tag, root, "filter:not-yet-encoded", has_contains, "",
            "solvables already in clauses_added_for_solvable are not encoded again")
+    encode_inputs(ctx, crate, crs, tag)
+
+
+def encode_inputs(ctx, crate, crs, tag):
+    """What run_sat hands to the encoder: the run's own solvable at the (re)start, afterwards only solvables taken from the
+    decision stack.  Anything else (prefetching soft requirements, candidates of the root, ...) fetches metadata acausally."""
+    R = "new-solvables" + tag
+    b = body_by_key(crate, SOLVER + "run_sat")
+    if b is None:
+        return
+    enc_calls = b.calls_to(ENC + "encode")
+    for n, (i, t) in enumerate(sorted(enc_calls, key=lambda x: x[1].get("line") or 0)):
+        lv = q.leaves(b, t["args"][1])
+        flds = {x for x in lv if x.startswith("field:")}
+        args = {x for x in lv if x.startswith("arg:")}
+        unk = {x for x in lv if x.startswith("unknown:")}
+        if not flds and args:
+            ok = args == {"arg:2"} and not unk
+            ctx.ob(R, b.key, "start-encodes-only-the-run's-solvable", ok, where_call(b, i),
+                   "the first encode of a run receives exactly the run's solvable (reads: %s)" % ", ".join(sorted(lv)))
+        else:
+            allowed = {"field:state.decision_tracker", "field:state.clauses_added_for_solvable", "field:state.variable_map"}
+            ok = "field:state.decision_tracker" in flds and flds <= allowed and not args and not unk
+            ctx.ob(R, b.key, "later-encodes-only-decided-solvables", ok, where_call(b, i),
+                   "after a partial solution only solvables from the decision stack are encoded (reads: %s)" % ", ".join(sorted(flds | args | unk)))
 
 
 def _negated_return(b, call_bb):
